@@ -26,12 +26,13 @@ import (
 //	roundOffset(rnd)
 //
 // for a tracker state built by hand: a symbolic cachedDBRound D (< 2^40), N
-// in-memory delta rounds D+1..D+N (N = 2 quick, 3 thorough), each of which
+// in-memory delta rounds D+1..D+N (N = 2 quick, 3 thorough; resources: 2), each of which
 // optionally (free boolean) writes the queried object with symbolic data and
 // always writes an unrelated second object, the per-object index
 // (au.accounts / au.kvStore / au.resources / au.creatables) consistent with
 // those deltas, the LRU cache of the object kind either disabled, empty or
-// holding the database value, and the database reader (au.accountsq, a harness
+// holding the database value (resources, quick tier: empty or holding; creators
+// have no cache), and the database reader (au.accountsq, a harness
 // type) answering either with the true value as of round D, or - "database
 // already advanced / behind" - with an unrelated value as of a round != D, or
 // with an error.
@@ -98,24 +99,35 @@ func verifC08Addr(i byte) basics.Address {
 }
 
 // verifC08Reader is the database as the tracker sees it. `calls` counts lookups.
+// The reader reports its answers as of round dbAt: when dbAt == dbRound (the
+// tracker's cachedDBRound) it returns the TRUE row; otherwise - the database has
+// already advanced, or is behind - some unrelated ("stale") row. The choice is
+// made when the reader is called, so that paths which never reach the database
+// do not fork on it.
 type verifC08Reader struct {
-	fail  bool
-	calls int
+	fail    bool
+	calls   int
+	dbRound basics.Round
+	dbAt    basics.Round
 
-	wantAddr basics.Address
-	acct     trackerdb.PersistedAccountData
+	wantAddr  basics.Address
+	acct      trackerdb.PersistedAccountData
+	acctStale trackerdb.PersistedAccountData
 
 	wantKey string
 	kv      trackerdb.PersistedKVData
+	kvStale trackerdb.PersistedKVData
 
 	wantAidx basics.CreatableIndex
 	res      trackerdb.PersistedResourcesData
+	resStale trackerdb.PersistedResourcesData
 
 	wantCidx     basics.CreatableIndex
-	wantCtype    basics.CreatableType
+	creatorOK    bool // a creatable wantCidx exists in the database, of type creatorType
+	creatorType  basics.CreatableType
 	creator      basics.Address
-	creatorOK    bool
-	creatorRound basics.Round
+	creatorStale basics.Address
+	staleOK      bool
 }
 
 func (r *verifC08Reader) LookupAccount(addr basics.Address) (trackerdb.PersistedAccountData, error) {
@@ -124,7 +136,10 @@ func (r *verifC08Reader) LookupAccount(addr basics.Address) (trackerdb.Persisted
 	if r.fail {
 		return trackerdb.PersistedAccountData{}, errVerifC08DB
 	}
-	return r.acct, nil
+	if r.dbAt == r.dbRound {
+		return r.acct, nil
+	}
+	return r.acctStale, nil
 }
 
 func (r *verifC08Reader) LookupResources(addr basics.Address, aidx basics.CreatableIndex, ctype basics.CreatableType) (trackerdb.PersistedResourcesData, error) {
@@ -133,7 +148,10 @@ func (r *verifC08Reader) LookupResources(addr basics.Address, aidx basics.Creata
 	if r.fail {
 		return trackerdb.PersistedResourcesData{}, errVerifC08DB
 	}
-	return r.res, nil
+	if r.dbAt == r.dbRound {
+		return r.res, nil
+	}
+	return r.resStale, nil
 }
 
 func (r *verifC08Reader) LookupAllResources(addr basics.Address) ([]trackerdb.PersistedResourcesData, basics.Round, error) {
@@ -150,7 +168,10 @@ func (r *verifC08Reader) LookupKeyValue(key string) (trackerdb.PersistedKVData, 
 	if r.fail {
 		return trackerdb.PersistedKVData{}, errVerifC08DB
 	}
-	return r.kv, nil
+	if r.dbAt == r.dbRound {
+		return r.kv, nil
+	}
+	return r.kvStale, nil
 }
 
 func (r *verifC08Reader) LookupKeysByPrefix(prefix string, maxKeyNum uint64, results map[string]bool, resultCount uint64) (basics.Round, error) {
@@ -161,26 +182,35 @@ func (r *verifC08Reader) LookupKeysByPrefixCursor(prefix string, cursor string, 
 	panic("verif: LookupKeysByPrefixCursor must not be reached")
 }
 
+// LookupCreator follows the SQL contract: the row is searched by (cidx, ctype).
 func (r *verifC08Reader) LookupCreator(cidx basics.CreatableIndex, ctype basics.CreatableType) (basics.Address, bool, basics.Round, error) {
 	r.calls++
-	vr.Assert("c08.db-asked-for-the-queried-creatable", cidx == r.wantCidx && ctype == r.wantCtype)
+	vr.Assert("c08.db-asked-for-the-queried-creatable", cidx == r.wantCidx)
 	if r.fail {
 		return basics.Address{}, false, 0, errVerifC08DB
 	}
-	return r.creator, r.creatorOK, r.creatorRound, nil
+	if r.dbAt == r.dbRound {
+		if r.creatorOK && ctype == r.creatorType {
+			return r.creator, true, r.dbAt, nil
+		}
+		return basics.Address{}, false, r.dbAt, nil
+	}
+	if r.staleOK {
+		return r.creatorStale, true, r.dbAt, nil
+	}
+	return basics.Address{}, false, r.dbAt, nil
 }
 
 func (r *verifC08Reader) Close() {}
 
 // verifC08State is the hand-built tracker plus the ghost bookkeeping shared by
-// the four lookups.
+// the lookups.
 type verifC08State struct {
 	au      *accountUpdates
 	db      *verifC08Reader
 	dbRound basics.Round
 	n       int
-	inSync  bool         // the database answers as of cachedDBRound
-	dbAt    basics.Round // the round the database reports
+	dbAt    basics.Round // the round the database reports (== dbRound: synchronised)
 	levels  [4]uint64    // ghost: RewardsLevel of round D+i
 }
 
@@ -188,19 +218,14 @@ var verifC08Versions = [4]protocol.ConsensusVersion{"vC08-0", "vC08-1", "vC08-2"
 var verifC08Labels = [3]string{"d0", "d1", "d2"}
 
 // verifC08Base: cachedDBRound, an empty delta window (R1 for zero deltas) and the
-// database reader's synchronisation mode.
+// database reader's round.
 func verifC08Base(n int) *verifC08State {
 	s := &verifC08State{n: n}
 	s.dbRound = basics.Round(vr.U64("dbRound"))
 	vr.Assume(s.dbRound < 1<<40)
-	s.db = &verifC08Reader{}
+	s.dbAt = basics.Round(vr.U64("db.round"))
+	s.db = &verifC08Reader{dbRound: s.dbRound, dbAt: s.dbAt}
 	s.db.fail = vr.Bool("db.fail")
-	s.inSync = vr.Bool("db.insync")
-	s.dbAt = s.dbRound
-	if !s.inSync {
-		s.dbAt = basics.Round(vr.U64("db.round"))
-		vr.Assume(s.dbAt != s.dbRound)
-	}
 	au := &accountUpdates{}
 	au.log = logging.Base()
 	au.accountsq = s.db
@@ -233,20 +258,23 @@ func (s *verifC08State) push(i int, sd ledgercore.StateDelta) {
 	au.deltasAccum = append(au.deltasAccum, au.deltasAccum[len(au.deltasAccum)-1]+sd.Accts.Len())
 }
 
-// query picks the symbolic query round. inWindow says whether D <= rnd <= D+N and
-// then off = rnd-D (symbolic, < 4).
-func (s *verifC08State) query() (rnd basics.Round, inWindow bool, off uint64) {
+// query picks a symbolic query round inside the window [D, D+N]; off = rnd-D.
+// (Rounds outside the window: VerifC08OutsideWindow.)
+func (s *verifC08State) query() (rnd basics.Round, off uint64) {
 	rnd = basics.Round(vr.U64("rnd"))
-	latest := s.dbRound + basics.Round(s.n)
-	if rnd < s.dbRound {
-		vr.Reach("below")
-		return rnd, false, 0
+	vr.Assume(rnd >= s.dbRound && rnd <= s.dbRound+basics.Round(s.n))
+	return rnd, uint64(rnd - s.dbRound)
+}
+
+// writtenBefore: does a delta of round <= D+off write the object ?
+func (s *verifC08State) writtenBefore(touched [3]bool, off uint64) bool {
+	w := false
+	for i := 0; i < s.n; i++ {
+		if touched[i] && uint64(i) < off {
+			w = true
+		}
 	}
-	if rnd > latest {
-		vr.Reach("above")
-		return rnd, false, 0
-	}
-	return rnd, true, uint64(rnd - s.dbRound)
+	return w
 }
 
 // verdict checks the error/independence part shared by all lookups.
@@ -254,8 +282,7 @@ func (s *verifC08State) query() (rnd basics.Round, inWindow bool, off uint64) {
 //	memory: the value at rnd is determined without the database (a delta <= rnd
 //	        writes the object, or the cache holds the database value)
 func (s *verifC08State) verdict(err error, memory bool) {
-	var mismatch *MismatchingDatabaseRoundError
-	isMismatch := errors.As(err, &mismatch)
+	mismatch, isMismatch := err.(*MismatchingDatabaseRoundError)
 	if memory {
 		vr.Reach("frommemory")
 		vr.Assert("c08.memory-answer-needs-no-database", err == nil && s.db.calls == 0)
@@ -267,7 +294,7 @@ func (s *verifC08State) verdict(err error, memory bool) {
 		vr.Assert("c08.database-error-passed-on", err == errVerifC08DB)
 		return
 	}
-	if !s.inSync {
+	if s.dbAt != s.dbRound {
 		vr.Reach("mismatch")
 		vr.Assert("c08.unsynchronised-database-answer-refused", isMismatch && mismatch.databaseRound == s.dbAt && mismatch.memoryRound == s.dbRound)
 		return
@@ -362,15 +389,9 @@ func verifC08AcctRun(n int) {
 		truth.AccountData = f.base()
 		truth.Ref = verifC08Ref{}
 	}
-	if s.inSync {
-		s.db.acct = truth
-	} else {
-		// some other version of the row, as of another round
-		s.db.acct = trackerdb.PersistedAccountData{Addr: addr, Round: s.dbAt, AccountData: verifC08Fields("stale").base()}
-		if vr.Bool("stale.exists") {
-			s.db.acct.Ref = verifC08Ref{}
-		}
-	}
+	s.db.acct = truth
+	// some other version of the row, as of another round
+	s.db.acctStale = trackerdb.PersistedAccountData{Addr: addr, Round: s.dbAt, AccountData: verifC08Fields("stale").base(), Ref: verifC08Ref{}}
 
 	// delta rounds; R2 by the real constructors, R3 below
 	var touched [3]bool
@@ -403,15 +424,16 @@ func verifC08AcctRun(n int) {
 
 	// the cache (R4)
 	cached := false
+	otherRow := trackerdb.PersistedAccountData{Addr: other, Round: s.dbRound, Ref: verifC08Ref{}, AccountData: verifC08Fields("cache.other").base()}
 	switch vr.Choice("cache", 3) {
 	case 0: // caching disabled: nil maps and channels
 		au.baseAccounts.init(au.log, 0, 0)
 	case 1:
 		au.baseAccounts.init(au.log, 4, 2)
-		au.baseAccounts.write(trackerdb.PersistedAccountData{Addr: other, Round: s.dbRound, Ref: verifC08Ref{}, AccountData: verifC08Fields("cache.other").base()})
+		au.baseAccounts.write(otherRow)
 	case 2:
 		au.baseAccounts.init(au.log, 4, 2)
-		au.baseAccounts.write(trackerdb.PersistedAccountData{Addr: other, Round: s.dbRound, Ref: verifC08Ref{}, AccountData: verifC08Fields("cache.other").base()})
+		au.baseAccounts.write(otherRow)
 		cached = true
 		if dbExists {
 			// the entry may have been read at an earlier database round and be
@@ -425,22 +447,10 @@ func verifC08AcctRun(n int) {
 		}
 	}
 
-	rnd, inWindow, off := s.query()
+	rnd, off := s.query()
 	data, validThrough, ver, level, err := au.lookupWithoutRewards(rnd, addr, false)
-	if !inWindow {
-		vr.Assert("c08.acct.round-outside-window-refused", err != nil && s.db.calls == 0)
-		vr.Reach("done")
-		return
-	}
 
-	// is there a write at a round <= rnd ?
-	inDeltas := false
-	for i := 0; i < n; i++ {
-		if touched[i] && uint64(i) < off {
-			inDeltas = true
-		}
-	}
-	s.verdict(err, inDeltas || cached)
+	s.verdict(err, cached || s.writtenBefore(touched, off))
 	if err == nil {
 		vr.Assert("c08.acct.value-is-history-value", data == hist[off])
 		vr.Assert("c08.acct.rewards-version-of-round", ver == verifC08Versions[off])
@@ -451,5 +461,385 @@ func verifC08AcctRun(n int) {
 	vr.Reach("done")
 }
 
-//verif:harness prop=C08 reach=done,below,above,frommemory,dberror,mismatch,fromdb unwind=10 budget=200 thorough.budget=1200
+//verif:harness prop=C08 reach=done,frommemory,dberror,mismatch,fromdb unwind=10 budget=200 thorough.budget=1200
 func VerifC08LookupAccount() { verifC08AcctRun(vr.Param(2, 3)) }
+
+// ---------------------------------------------------------------------------
+// key/value pairs (boxes)
+
+// a value is absent (nil: deleted / never existed) or one symbolic byte
+type verifC08KV struct {
+	present bool
+	b       uint8
+}
+
+func (v verifC08KV) bytes() []byte {
+	if !v.present {
+		return nil
+	}
+	return []byte{v.b}
+}
+
+func verifC08KVIs(got []byte, want verifC08KV) bool {
+	if !want.present {
+		return got == nil
+	}
+	return got != nil && len(got) == 1 && got[0] == want.b
+}
+
+func verifC08KVRun(n int) {
+	s := verifC08Base(n)
+	au := s.au
+	const key, other = "bx:k1", "bx:k2"
+	s.db.wantKey = key
+
+	var hist [4]verifC08KV
+	hist[0] = verifC08KV{present: vr.Bool("db.exists"), b: vr.U8("db.value")}
+	truth := trackerdb.PersistedKVData{Value: hist[0].bytes(), Round: s.dbRound}
+	s.db.kv = truth
+	s.db.kvStale = trackerdb.PersistedKVData{Value: []byte{vr.U8("stale.value")}, Round: s.dbAt}
+
+	var touched [3]bool
+	nTouched := 0
+	var last, first verifC08KV
+	for i := 0; i < n; i++ {
+		l := verifC08Labels[i]
+		sd := s.newDelta(i)
+		otherVal := []byte{vr.U8(l + ".other")}
+		sd.AddKvMod(other, ledgercore.KvValueDelta{Data: otherVal})
+		au.kvStore[other] = modifiedKvValue{data: otherVal, ndeltas: i + 1}
+		hist[i+1] = hist[i]
+		if vr.Bool(l + ".touch") {
+			last = verifC08KV{present: vr.Bool(l + ".present"), b: vr.U8(l + ".value")}
+			if nTouched == 0 {
+				first = hist[i]
+			}
+			touched[i] = true
+			nTouched++
+			// OldData as roundCowState.deltas fills it: the value before this round
+			sd.AddKvMod(key, ledgercore.KvValueDelta{Data: last.bytes(), OldData: hist[i].bytes()})
+			hist[i+1] = last
+		}
+		s.push(i, sd)
+	}
+	if nTouched > 0 {
+		au.kvStore[key] = modifiedKvValue{data: last.bytes(), oldData: first.bytes(), ndeltas: nTouched}
+	}
+
+	cached := false
+	switch vr.Choice("cache", 3) {
+	case 0:
+		au.baseKVs.init(au.log, 0, 0)
+	case 1:
+		au.baseKVs.init(au.log, 4, 2)
+		au.baseKVs.write(trackerdb.PersistedKVData{Value: []byte{vr.U8("cache.other")}, Round: s.dbRound}, other)
+	case 2:
+		au.baseKVs.init(au.log, 4, 2)
+		au.baseKVs.write(trackerdb.PersistedKVData{Value: []byte{vr.U8("cache.other")}, Round: s.dbRound}, other)
+		cached = true
+		c := truth // deleted / missing keys are cached as nil values
+		c.Round = basics.Round(vr.U64("cache.round"))
+		vr.Assume(c.Round <= s.dbRound)
+		au.baseKVs.write(c, key)
+	}
+
+	rnd, off := s.query()
+	got, err := au.lookupKv(rnd, key, false)
+
+	s.verdict(err, cached || s.writtenBefore(touched, off))
+	if err == nil {
+		vr.Assert("c08.kv.value-is-history-value", verifC08KVIs(got, hist[off]))
+	}
+	vr.Reach("done")
+}
+
+//verif:harness prop=C08 reach=done,frommemory,dberror,mismatch,fromdb unwind=10 budget=200 thorough.budget=1200
+func VerifC08LookupKv() { verifC08KVRun(vr.Param(2, 3)) }
+
+// ---------------------------------------------------------------------------
+// resources: one asset of one account (holding, and params when the account is
+// the creator)
+
+type verifC08Res struct {
+	hasHolding bool
+	amount     uint64
+	frozenBit  uint8 // 0 or 1
+	hasParams  bool
+	total      uint64
+	decimals   uint32
+}
+
+// verifC08ResCheck asserts got == want (separate obligations instead of one
+// short-circuit chain: no path forks on the symbolic parts).
+func verifC08ResCheck(tag string, got ledgercore.AccountResource, want verifC08Res) {
+	vr.Assert(tag+".no-app-parts", got.AppParams == nil && got.AppLocalState == nil)
+	vr.Assert(tag+".holding-presence", (got.AssetHolding != nil) == want.hasHolding)
+	vr.Assert(tag+".params-presence", (got.AssetParams != nil) == want.hasParams)
+	if got.AssetHolding != nil {
+		vr.Assert(tag+".holding-value", *got.AssetHolding == basics.AssetHolding{Amount: want.amount, Frozen: want.frozenBit == 1})
+	}
+	if got.AssetParams != nil {
+		vr.Assert(tag+".params-value", *got.AssetParams == basics.AssetParams{Total: want.total, Decimals: want.decimals})
+	}
+}
+
+// verifC08ResValue: shape 0 = gone (no holding, no params), 1 = holding only,
+// 2 = holding and params (the account created the asset; a creator always holds).
+func verifC08ResValue(l string, shape int) verifC08Res {
+	var v verifC08Res
+	if shape >= 1 {
+		v.hasHolding = true
+		v.amount = vr.U64(l + ".amount")
+		v.frozenBit = vr.U8(l + ".frozen")
+		vr.Assume(v.frozenBit <= 1)
+	}
+	if shape >= 2 {
+		v.hasParams = true
+		v.total = vr.U64(l + ".total")
+		v.decimals = vr.U32(l + ".decimals")
+	}
+	return v
+}
+
+// row: the persisted form, with the flags SetAssetHolding/SetAssetParams compute
+// (holding present; ownership iff params; "empty asset" iff every asset field is
+// zero) - written out by hand so that building the row does not fork on the
+// symbolic amounts.
+func (v verifC08Res) row(aidx basics.CreatableIndex, rnd basics.Round) trackerdb.PersistedResourcesData {
+	prd := trackerdb.PersistedResourcesData{Aidx: aidx, Round: rnd}
+	if !v.hasHolding {
+		return prd // no row: AcctRef == nil
+	}
+	prd.AcctRef = verifC08Ref{}
+	prd.Data = trackerdb.ResourcesData{Amount: v.amount, Frozen: v.frozenBit == 1, Total: v.total, Decimals: v.decimals, UpdateRound: 3}
+	flags := trackerdb.ResourceFlagsHolding
+	if v.hasParams {
+		flags |= trackerdb.ResourceFlagsOwnership
+	}
+	if v.amount|uint64(v.frozenBit)|v.total|uint64(v.decimals) == 0 {
+		flags |= trackerdb.ResourceFlagsEmptyAsset
+	}
+	prd.Data.ResourceFlags = flags
+	return prd
+}
+
+// record: the delta record of a round that leaves the resource in state v (R5:
+// complete; what is gone is flagged Deleted).
+func (v verifC08Res) record() (ledgercore.AssetParamsDelta, ledgercore.AssetHoldingDelta) {
+	var p ledgercore.AssetParamsDelta
+	var h ledgercore.AssetHoldingDelta
+	if v.hasHolding {
+		h.Holding = &basics.AssetHolding{Amount: v.amount, Frozen: v.frozenBit == 1}
+	} else {
+		h.Deleted = true
+	}
+	if v.hasParams {
+		p.Params = &basics.AssetParams{Total: v.total, Decimals: v.decimals}
+	} else if !v.hasHolding {
+		p.Deleted = vr.Bool("rec.paramsdeleted") // destroyed by the creator, or a plain opt-out
+	}
+	return p, h
+}
+
+func verifC08ResRun(n int) {
+	s := verifC08Base(n)
+	au := s.au
+	addr, otherAddr := verifC08Addr(1), verifC08Addr(2)
+	const aidx, otherIdx = basics.CreatableIndex(77), basics.CreatableIndex(78)
+	s.db.wantAddr, s.db.wantAidx = addr, aidx
+
+	var hist [4]verifC08Res
+	hist[0] = verifC08ResValue("db", vr.Choice("db.shape", 3))
+	truth := hist[0].row(aidx, s.dbRound)
+	s.db.res = truth
+	s.db.resStale = verifC08ResValue("stale", 2).row(aidx, s.dbAt)
+
+	var touched [3]bool
+	nTouched := 0
+	var last verifC08Res
+	for i := 0; i < n; i++ {
+		l := verifC08Labels[i]
+		sd := s.newDelta(i)
+		// unrelated records: same asset for another account, another asset for this account
+		o1 := verifC08ResValue(l+".o1", 1)
+		o2 := verifC08ResValue(l+".o2", 1)
+		p1, h1 := o1.record()
+		p2, h2 := o2.record()
+		sd.Accts.UpsertAssetResource(otherAddr, basics.AssetIndex(aidx), p1, h1)
+		hist[i+1] = hist[i]
+		if shape := vr.Choice(l+".shape", 4); shape > 0 {
+			touched[i] = true
+			nTouched++
+			last = verifC08ResValue(l, shape-1)
+			p, h := last.record()
+			sd.Accts.UpsertAssetResource(addr, basics.AssetIndex(aidx), p, h)
+			hist[i+1] = last
+		}
+		sd.Accts.UpsertAssetResource(addr, basics.AssetIndex(otherIdx), p2, h2)
+		au.resources[accountCreatable{otherAddr, aidx}] = modifiedResource{resource: ledgercore.AccountResource{AssetHolding: h1.Holding}, ndeltas: i + 1}
+		au.resources[accountCreatable{addr, otherIdx}] = modifiedResource{resource: ledgercore.AccountResource{AssetHolding: h2.Holding}, ndeltas: i + 1}
+		if touched[i] {
+			// R3/R5 as newBlockImpl: both pointers of the latest record
+			rec, _ := sd.Accts.GetResource(addr, aidx, basics.AssetCreatable)
+			au.resources[accountCreatable{addr, aidx}] = modifiedResource{resource: rec, ndeltas: nTouched}
+		}
+		s.push(i, sd)
+	}
+
+	cached := false
+	otherRow := verifC08ResValue("cache.other", 1).row(otherIdx, s.dbRound)
+	switch 2 - vr.Choice("cache", vr.Param(2, 3)) { // quick: the disabled cache is left to the other harnesses
+	case 0:
+		au.baseResources.init(au.log, 0, 0)
+	case 1:
+		au.baseResources.init(au.log, 4, 2)
+		au.baseResources.write(otherRow, addr)
+	case 2:
+		au.baseResources.init(au.log, 4, 2)
+		au.baseResources.write(otherRow, addr)
+		cached = true
+		if hist[0].hasHolding {
+			c := truth
+			c.Round = basics.Round(vr.U64("cache.round"))
+			vr.Assume(c.Round <= s.dbRound)
+			au.baseResources.write(c, addr)
+		} else {
+			au.baseResources.notFound[accountCreatable{addr, aidx}] = struct{}{}
+		}
+	}
+
+	rnd, off := s.query()
+	got, validThrough, err := au.lookupResource(rnd, addr, aidx, basics.AssetCreatable, false)
+
+	s.verdict(err, cached || s.writtenBefore(touched, off))
+	if err == nil {
+		verifC08ResCheck("c08.res.value-is-history-value", got, hist[off])
+		vr.Assert("c08.res.validthrough-in-window", validThrough >= rnd && validThrough <= s.dbRound+basics.Round(n))
+		verifC08ResCheck("c08.res.unchanged-until-validthrough", got, hist[uint64(validThrough-s.dbRound)])
+	}
+	vr.Reach("done")
+}
+
+//verif:harness prop=C08 reach=done,frommemory,dberror,mismatch,fromdb unwind=10 budget=200 thorough.budget=1200
+func VerifC08LookupResource() { verifC08ResRun(2) }
+
+// ---------------------------------------------------------------------------
+// creators
+
+type verifC08Creator struct {
+	created bool
+	ctype   basics.CreatableType
+	who     uint8 // address pool index
+}
+
+func verifC08CreatorValue(l string) verifC08Creator {
+	c := verifC08Creator{created: vr.Bool(l + ".created"), ctype: basics.CreatableType(vr.U8(l + ".ctype")), who: vr.U8(l + ".creator")}
+	vr.Assume(c.ctype <= basics.AppCreatable)
+	vr.Assume(c.who >= 1 && c.who <= 3)
+	return c
+}
+
+func verifC08CreatorRun(n int) {
+	s := verifC08Base(n)
+	au := s.au
+	const cidx, otherIdx = basics.CreatableIndex(500), basics.CreatableIndex(501)
+	s.db.wantCidx = cidx
+
+	var hist [4]verifC08Creator
+	hist[0] = verifC08CreatorValue("db")
+	s.db.creatorOK, s.db.creatorType, s.db.creator = hist[0].created, hist[0].ctype, verifC08Addr(hist[0].who)
+	s.db.staleOK, s.db.creatorStale = vr.Bool("stale.ok"), verifC08Addr(9)
+
+	var touched [3]bool
+	nTouched := 0
+	var last verifC08Creator
+	for i := 0; i < n; i++ {
+		l := verifC08Labels[i]
+		sd := s.newDelta(i)
+		oc := ledgercore.ModifiedCreatable{Ctype: basics.AssetCreatable, Created: true, Creator: verifC08Addr(8)}
+		sd.AddCreatable(otherIdx, oc)
+		oc.Ndeltas = i + 1
+		au.creatables[otherIdx] = oc
+		hist[i+1] = hist[i]
+		if vr.Bool(l + ".touch") {
+			touched[i] = true
+			nTouched++
+			last = verifC08CreatorValue(l)
+			sd.AddCreatable(cidx, ledgercore.ModifiedCreatable{Ctype: last.ctype, Created: last.created, Creator: verifC08Addr(last.who)})
+			hist[i+1] = last
+		}
+		s.push(i, sd)
+	}
+	if nTouched > 0 {
+		au.creatables[cidx] = ledgercore.ModifiedCreatable{Ctype: last.ctype, Created: last.created, Creator: verifC08Addr(last.who), Ndeltas: nTouched}
+	}
+
+	qtype := basics.CreatableType(vr.U8("query.ctype"))
+	vr.Assume(qtype <= basics.AppCreatable)
+	rnd, off := s.query()
+	creator, ok, err := au.getCreatorForRound(rnd, cidx, qtype, false)
+
+	s.verdict(err, s.writtenBefore(touched, off))
+	if err == nil {
+		want := hist[off]
+		exists := want.created && want.ctype == qtype
+		vr.Assert("c08.creator.existence-is-history-value", ok == exists)
+		if exists {
+			vr.Assert("c08.creator.creator-is-history-value", creator == verifC08Addr(want.who))
+		} else {
+			vr.Assert("c08.creator.no-creator-when-absent", creator.IsZero())
+		}
+	}
+	vr.Reach("done")
+}
+
+//verif:harness prop=C08 reach=done,frommemory,dberror,mismatch,fromdb unwind=10 budget=200 thorough.budget=1200
+func VerifC08GetCreator() { verifC08CreatorRun(vr.Param(2, 3)) }
+
+// ---------------------------------------------------------------------------
+// rounds outside the window the tracker still serves: every lookup refuses, and
+// does so without consulting the database; roundOffset itself.
+
+//verif:harness prop=C08 reach=done,below,above,inside unwind=10 budget=200
+func VerifC08OutsideWindow() {
+	const n = 2
+	s := verifC08Base(n)
+	au := s.au
+	addr := verifC08Addr(1)
+	for i := 0; i < n; i++ {
+		sd := s.newDelta(i)
+		sd.Accts.Upsert(addr, verifC08Fields(verifC08Labels[i]).core())
+		au.accounts[addr] = modifiedAccount{ndeltas: i + 1}
+		s.push(i, sd)
+	}
+	au.baseAccounts.init(au.log, 4, 2)
+	au.baseResources.init(au.log, 4, 2)
+	au.baseKVs.init(au.log, 4, 2)
+
+	rnd := basics.Round(vr.U64("rnd"))
+	off, err := au.roundOffset(rnd)
+	if rnd >= s.dbRound && rnd <= s.dbRound+n {
+		vr.Reach("inside")
+		vr.Assert("c08.roundoffset.inside", err == nil && off == uint64(rnd-s.dbRound))
+		vr.Reach("done")
+		return
+	}
+	if rnd < s.dbRound {
+		vr.Reach("below")
+		roe, isROE := err.(*RoundOffsetError)
+		vr.Assert("c08.roundoffset.below", isROE && roe.round == rnd && roe.dbRound == s.dbRound)
+	} else {
+		vr.Reach("above")
+		vr.Assert("c08.roundoffset.above", err != nil)
+	}
+	_, _, _, _, err1 := au.lookupWithoutRewards(rnd, addr, false)
+	_, err2 := au.lookupKv(rnd, "bx:k1", false)
+	_, _, err3 := au.lookupResource(rnd, addr, 77, basics.AssetCreatable, false)
+	_, _, err4 := au.getCreatorForRound(rnd, 500, basics.AssetCreatable, false)
+	vr.Assert("c08.outside.account-refused", err1 != nil)
+	vr.Assert("c08.outside.kv-refused", err2 != nil)
+	vr.Assert("c08.outside.resource-refused", err3 != nil)
+	vr.Assert("c08.outside.creator-refused", err4 != nil)
+	vr.Assert("c08.outside.database-not-asked", s.db.calls == 0)
+	vr.Reach("done")
+}
